@@ -698,3 +698,136 @@ func callsTo(fn *ssa.Function, ids ...string) []ssa.CallInstruction {
 	}
 	return out
 }
+
+// ---- inlining provenance -----------------------------------------------------------------------------
+
+type inlCtx struct {
+	fn     *ssa.Function
+	call   *ssa.Call
+	parent *inlCtx
+}
+
+// LeavesInl is Leaves that looks through calls of own functions (helper extraction): the result of
+// f(args) is replaced by the leaves of f's returned values, with f's parameters substituted by the
+// arguments of this call. skip(fn) excludes functions that rules treat as origins in their own right.
+func LeavesInl(v ssa.Value, o leafOpts, depth int, skip func(*ssa.Function) bool) []ssa.Value {
+	var out []ssa.Value
+	seen := map[[2]interface{}]bool{}
+	var walk func(v ssa.Value, ctx *inlCtx, d int)
+	walk = func(v ssa.Value, ctx *inlCtx, d int) {
+		for _, l := range Leaves(v, o) {
+			key := [2]interface{}{l, ctx}
+			if seen[key] {
+				continue
+			}
+			seen[key] = true
+			// parameter of an inlined callee → the caller's argument
+			if p, ok := l.(*ssa.Parameter); ok && ctx != nil && p.Parent() == ctx.fn {
+				idx := -1
+				for i, q := range ctx.fn.Params {
+					if q == p {
+						idx = i
+					}
+				}
+				if idx >= 0 && idx < len(ctx.call.Common().Args) {
+					walk(ctx.call.Common().Args[idx], ctx.parent, d)
+					continue
+				}
+			}
+			call, ridx, isCall := asCall(l)
+			if isCall && d > 0 {
+				callee := call.Common().StaticCallee()
+				if callee != nil && callee.Blocks != nil && isOwnPath(pkgPathOf(callee)) && !strings.HasPrefix(pkgPathOf(callee), modPath+"/config/gen/go") &&
+					(skip == nil || !skip(callee)) {
+					ri := ridx
+					if ri < 0 {
+						ri = 0
+					}
+					sub := &inlCtx{callee, call, ctx}
+					n := 0
+					for _, r := range returnsOf(callee) {
+						if ri < len(r.Results) {
+							walk(r.Results[ri], sub, d-1)
+							n++
+						}
+					}
+					if n > 0 {
+						continue
+					}
+				}
+			}
+			out = append(out, l)
+		}
+	}
+	walk(v, nil, depth)
+	return out
+}
+
+// deepCalls lists the call instructions of fn and of the own functions it calls statically (helper
+// extraction), up to depth; closures created in those functions are included.
+func deepCalls(fn *ssa.Function, depth int) []ssa.CallInstruction {
+	seen := map[*ssa.Function]bool{}
+	var out []ssa.CallInstruction
+	var walk func(f *ssa.Function, d int)
+	walk = func(f *ssa.Function, d int) {
+		if f == nil || seen[f] || f.Blocks == nil {
+			return
+		}
+		seen[f] = true
+		for _, b := range f.Blocks {
+			for _, ins := range b.Instrs {
+				switch x := ins.(type) {
+				case ssa.CallInstruction:
+					out = append(out, x)
+					if callee := x.Common().StaticCallee(); callee != nil && d > 0 && isOwnPath(pkgPathOf(callee)) &&
+						!strings.HasPrefix(pkgPathOf(callee), modPath+"/config/gen/go") {
+						walk(callee, d-1)
+					}
+				case *ssa.MakeClosure:
+					walk(x.Fn.(*ssa.Function), d)
+				}
+			}
+		}
+	}
+	walk(fn, depth)
+	return out
+}
+
+// deepFuncs: fn plus the own functions it calls statically, up to depth.
+func deepFuncs(fn *ssa.Function, depth int) []*ssa.Function {
+	seen := map[*ssa.Function]bool{}
+	var out []*ssa.Function
+	var walk func(f *ssa.Function, d int)
+	walk = func(f *ssa.Function, d int) {
+		if f == nil || seen[f] || f.Blocks == nil || !isOwnPath(pkgPathOf(f)) || strings.HasPrefix(pkgPathOf(f), modPath+"/config/gen/go") {
+			return
+		}
+		seen[f] = true
+		out = append(out, f)
+		if d == 0 {
+			return
+		}
+		for _, b := range f.Blocks {
+			for _, ins := range b.Instrs {
+				switch x := ins.(type) {
+				case ssa.CallInstruction:
+					walk(x.Common().StaticCallee(), d-1)
+				case *ssa.MakeClosure:
+					walk(x.Fn.(*ssa.Function), d)
+				}
+			}
+		}
+	}
+	walk(fn, depth)
+	return out
+}
+
+func callsToDeep(fn *ssa.Function, depth int, ids ...string) []ssa.CallInstruction {
+	var out []ssa.CallInstruction
+	for _, c := range deepCalls(fn, depth) {
+		if isCallToAny(c, ids...) {
+			out = append(out, c)
+		}
+	}
+	return out
+}
